@@ -33,6 +33,7 @@ def main():
     ap.add_argument("--seeds", type=int, default=2)
     ap.add_argument("--keep", action="store_true")
     ap.add_argument("--skip-confirm", action="store_true")
+    ap.add_argument("--only", action="store_true", help="run only --checks (not the property's own check); earlier results kept in meta.json are merged")
     a = ap.parse_args()
     sd = "/tmp/seed/%s" % a.id
     out = "%s/out/%s" % (sd, a.x)
@@ -50,11 +51,12 @@ def main():
 
     if not a.skip_confirm:
         sh("git checkout -- . && git clean -fdq", cwd=wt)
-        rc, o = sh(["git", "apply", "--check", patch], cwd=wt)
+        rc, o = sh(["git", "apply", patch], cwd=wt)
+        if rc != 0:
+            rc, o = sh(["git", "apply", "-3", patch], cwd=wt)
         if rc != 0:
             print("PATCH DOES NOT APPLY", o)
             sys.exit(3)
-        sh(["git", "apply", patch], cwd=wt)
         rc, o = sh("go build ./...", cwd=wt)
         report["builds"] = rc == 0
         if rc != 0:
@@ -106,13 +108,15 @@ def main():
     # files, no build output) is pointed at the seed's own worktree with the
     # patch applied (VERIF_REPO), so /repo itself is never touched and several
     # evaluations can run side by side.
-    checks = [a.id] + [c for c in a.checks.split(",") if c]
+    checks = ([] if a.only else [a.id]) + [c for c in a.checks.split(",") if c]
     iso = "/tmp/evalv/%s-%s" % (a.id, a.x)
     shutil.rmtree(iso, ignore_errors=True)
     os.makedirs(iso)
     sh("rsync -a --exclude .git --exclude .build --exclude .work --exclude logs --exclude replays --exclude evidence /verif/ %s/" % iso)
     sh("git checkout -- . && git clean -fdq", cwd=wt)
     rc, o = sh(["git", "apply", patch], cwd=wt)
+    if rc != 0:
+        rc, o = sh(["git", "apply", "-3", patch], cwd=wt)
     if rc != 0:
         print("cannot apply:", o)
         sys.exit(3)
@@ -133,6 +137,14 @@ def main():
     finally:
         shutil.rmtree(iso, ignore_errors=True)
         sh("git -C /repo worktree remove --force %s" % wt)
+    kd = "/verif/seeded/%s-%s" % (a.id, a.x)
+    if os.path.exists(kd + "/meta.json"):
+        prev = json.load(open(kd + "/meta.json")).get("confirmed", {})
+        for k, v in prev.items():
+            report.setdefault(k, v)
+        merged = dict(prev.get("checks", {}))
+        merged.update(results)
+        results = merged
     report["checks"] = results
     report["caught_by"] = [c for c, rs in results.items() if any(r["exit"] == 1 for r in rs)]
     print(json.dumps(report, indent=1))
